@@ -10,7 +10,7 @@ PIN = os.environ.get("PIN", "d74af5d")
 WT = "/tmp/cw"
 
 def sh(cmd, cwd=None, timeout=900):
-    r = subprocess.run(cmd, shell=True, cwd=cwd, stdout=subprocess.PIPE, stderr=subprocess.STDOUT, text=True, timeout=timeout)
+    r = subprocess.run(cmd, shell=True, cwd=cwd, stdout=subprocess.PIPE, stderr=subprocess.STDOUT, text=True, errors="replace", timeout=timeout)
     return r.returncode, r.stdout
 
 def demo(tree, d, tag):
